@@ -926,7 +926,12 @@ class Interp:
     def table_inverse(self, name, w, idx_term):
         """A[B[x]] = x for two constant byte tables that are mutually inverse permutations (read off the constants, as
         const evaluation would): the lookup of a zero-extended B-lookup in A is the index byte of the B-lookup"""
-        if w != 8 or idx_term[0] != 'cat':
+        if w != 8:
+            return None
+        if T.BITCANON:
+            import bitform
+            idx_term = bitform.recanon(idx_term)
+        if idx_term[0] != 'cat':
             return None
         parts = idx_term[2]
         if not parts or parts[0][1] != 0 or parts[0][2] != 8 or any(not (p[0][0] == 'c' and p[0][2] == 0) for p in parts[1:]):
@@ -935,8 +940,13 @@ class Interp:
         if not inner[0].startswith(('tbl:', 'sel:')) or inner[1] != 8 or inner[0] not in self.tbl_info or name not in self.tbl_info:
             return None
         y = inner[2]
-        if y[0] != 'cat' or not y[2] or y[2][0][2] != 8 or any(not (p[0][0] == 'c' and p[0][2] == 0) for p in y[2][1:]):
+        wy = T.width(y)
+        if wy < 8:
             return None
+        if wy > 8:
+            hi = T.slice_(y, 8, wy - 8)
+            if not (hi[0] == 'c' and hi[2] == 0):
+                return None           # the inner index is not known to be a byte
         key = (name, inner[0])
         ok = self.tbl_inv_cache.get(key)
         if ok is None:
@@ -953,8 +963,7 @@ class Interp:
             self.tbl_inv_cache[key] = ok
         if not ok:
             return None
-        atom, lo, _ln = y[2][0]
-        return T.slice_(atom, lo, 8)
+        return T.slice_(y, 0, 8)
 
     def decode_slice(self, aid, loc):
         d = self.types[loc.ty]
